@@ -75,6 +75,59 @@ func Serve(shard, nshards, total int, hang time.Duration, describe func(idx int)
 	w.Write(append(b, '\n'))
 }
 
+// ServeIter is Serve for case sets too large to materialise: iter enumerates ALL cases in a fixed
+// order, calling yield(describe, run) for each; only the cases of this shard are executed.
+func ServeIter(shard, nshards int, hang time.Duration, iter func(yield func(describe func() any, run func() Result))) {
+	runtime.GOMAXPROCS(1)
+	w := bufio.NewWriterSize(os.Stdout, 1<<16)
+	defer w.Flush()
+	var curDesc atomic.Value
+	go func() {
+		for {
+			time.Sleep(200 * time.Millisecond)
+			if st := curStart.Load(); st != 0 && time.Since(time.Unix(0, st)) > hang {
+				key := "hang"
+				var rp any
+				if d, ok := curDesc.Load().(func() any); ok && d != nil {
+					rp = d()
+					if m, ok := rp.(map[string]any); ok && m["family"] != nil {
+						key = fmt.Sprint("hang:", m["family"])
+					}
+				}
+				b, _ := json.Marshal(map[string]any{"violation": key, "what": fmt.Sprintf("case %d did not return within %v", curIdx.Load(), hang), "replay": rp})
+				os.Stdout.Write(append(b, '\n'))
+				os.Exit(3)
+			}
+		}
+	}()
+	outcomes := map[string]int{}
+	n, total := 0, 0
+	iter(func(describe func() any, run func() Result) {
+		idx := total
+		total++
+		if idx%nshards != shard {
+			return
+		}
+		curIdx.Store(int64(idx))
+		curDesc.Store(describe)
+		curStart.Store(time.Now().UnixNano())
+		r := run()
+		curStart.Store(0)
+		n++
+		outcomes[r.Outcome]++
+		if r.Viol != "" {
+			b, _ := json.Marshal(map[string]any{"violation": r.Viol, "what": r.What, "replay": r.Replay})
+			w.Write(append(b, '\n'))
+		}
+		if r.Sample != nil {
+			b, _ := json.Marshal(map[string]any{"sample": r.Sample})
+			w.Write(append(b, '\n'))
+		}
+	})
+	b, _ := json.Marshal(map[string]any{"summary": true, "cases": n, "total": total, "outcomes": outcomes})
+	w.Write(append(b, '\n'))
+}
+
 // Spawn is the parent side: starts the workers (`self <id> worker <tier> <i> <n>`),
 // aggregates outcomes, samples and violations into r. hangKey maps a hang report
 // to a violation key. It returns the number of cases executed.
